@@ -31,10 +31,18 @@ PROP = dict(
               "windows from {hann, hamming, blackman, rect, 2*hann} (periodic) written in place into ONE persistent window buffer, plus "
               "signal-only control pairs, for (nfft, overlap) in {(16,8),(16,12),(64,48),(256,192),(256,128)} x {ola, wola}, length nfft+3*hop+hop-1; "
               "each round trip passes the istft value oracle and is bit-identical to the same call made first in a fresh thread. "
-              "ASan pass: everything forked, n <= 64, nfft in {8,12,16} (stft.history nfft <= 64)",
-        thorough="as quick with n <= 2048 (all columns/impulses for n <= 256, dense oracle n <= 1024), odd n in 1..2049, after_reject n <= 2048, stft uses the full grid also for nfft 128, 256, 512, 1024 (no sparse grid); stft.history adds (512,256), (1024,768) and all window triples with distinct neighbours; "
-                 "ASan pass n <= 256"),
-    deadline=dict(quick=150, thorough=1500),
+              "ASan pass: everything forked, n <= 64, nfft in {8,12,16} (stft.history nfft <= 64). "
+              "BIG SIZES in quick (main pass): ifft/IfftPlan additionally at n in {4098, 4099, 4100, 5000, 8192, 16384, 46342, 65536, 65537, 65538, 70000, "
+              "99991, 100000, 131072} and irfft/IfftPlanR (both forms, definition + round trip + after_reject) at the even ones, with the "
+              "boundary/split position set, closed-form and extreme-magnitude letters; odd n in {4097, 4099, 46341, 65535, 65537, 70001, 131071} must "
+              "throw; sparse stft/istft grid also at nfft 4096, and two long-signal cases: nfft 256 with 77183 / 38783 samples and nfft 4096 with "
+              "1071103 / 537599 samples (signal length x nfft/2 exceeds 2^31); stft.history also at (4096, 2048)",
+        thorough="as quick with every n in 1..8192 for ifft, irfft (even n), after_reject and odd-n rejection (1..8193) plus the big lengths above 8192 "
+                 "(all columns/impulses for n <= 256, dense oracle n <= 1024); stft/istft full grid (every accepted overlap, 3 ranges, 9 lengths) "
+                 "for nfft in {8,12,16,20,24,32,48,64,96,128,192,256,384,512,1024,2048}, sparse grid at 4096 and 8192, the two long-signal "
+                 "cases; stft.history adds (512,256), (1024,768), (24,18), (96,72), (128,96), (128,64), (1024,512), (2048,1536), (4096,3072), "
+                 "(8192,4096) and all window triples with distinct neighbours; ASan pass n <= 256"),
+    deadline=dict(quick=150, thorough=3000),
     passes=[dict(name="main"), dict(name="asan", variant="asan", args=["--asan-pass"])],
     assumptions=COMMON_ASSUME + [
         "'reproduces x' is judged at 64*n*eps relative l2 for ifft, irfft and both round trips (the statement gives no number)",
